@@ -547,3 +547,75 @@ def path_condition(pm, node, stop=None):
                 out.append((p.test, False))
         child, p = p, pm.get(p)
     return list(reversed(out))
+
+
+def dominating_conditions(pm, node, stop=None):
+    """[(test, polarity)] that hold whenever `node` runs: the tests of enclosing `if`s (with the arm's polarity) and the
+    negations of earlier guard clauses in the enclosing statement lists (`if C: continue/return/raise/break` without else)"""
+    out = []
+    child, p = node, pm.get(node)
+    while p is not None and p is not stop:
+        for field in ("body", "orelse", "finalbody"):
+            lst = getattr(p, field, None)
+            if isinstance(lst, list) and any(child is x for x in lst):
+                idx = [i for i, x in enumerate(lst) if x is child][0]
+                for prev in lst[:idx]:
+                    if isinstance(prev, ast.If) and not prev.orelse and terminates(prev.body):
+                        out.append((prev.test, False))
+                if isinstance(p, ast.If):
+                    out.append((p.test, field == "body"))
+        child, p = p, pm.get(p)
+    if p is stop and stop is not None:
+        lst = getattr(stop, "body", None)
+        if isinstance(lst, list) and any(child is x for x in lst):
+            idx = [i for i, x in enumerate(lst) if x is child][0]
+            for prev in lst[:idx]:
+                if isinstance(prev, ast.If) and not prev.orelse and terminates(prev.body):
+                    out.append((prev.test, False))
+    return out
+
+
+def dict_contributions(root, dname):
+    """How the dict held in local `dname` is filled: [(iterable, target, key, value)] (unparsed) from
+    `for T in IT: d[K] = V`, `d = {K: V for T in IT}`, `d.update((K, V) for T in IT)` and `d.update({K: V for T in IT})`;
+    plain `d[K] = V` outside a loop gives (None, None, K, V). Anything else that touches `d` gives ("?", ..)."""
+    out = []
+    pm = parent_map(root)
+    for n in ast.walk(root):
+        if isinstance(n, ast.Assign) and len(n.targets) == 1:
+            t = n.targets[0]
+            if isinstance(t, ast.Subscript) and unparse(t.value) == dname:
+                p = pm.get(n)
+                loop = p if isinstance(p, ast.For) and len(p.body) == 1 else None
+                if loop is not None:
+                    out.append((unparse(loop.iter), unparse(loop.target), unparse(t.slice), unparse(n.value)))
+                else:
+                    q = p
+                    while q is not None and not isinstance(q, (ast.For, ast.While)):
+                        q = pm.get(q)
+                    out.append(("?" if q is not None else None, None, unparse(t.slice), unparse(n.value)))
+            elif isinstance(t, ast.Name) and t.id == dname:
+                v = n.value
+                if isinstance(v, ast.DictComp) and len(v.generators) == 1 and not v.generators[0].ifs:
+                    g = v.generators[0]
+                    out.append((unparse(g.iter), unparse(g.target), unparse(v.key), unparse(v.value)))
+                elif isinstance(v, ast.Dict) and not v.keys:
+                    pass
+                elif isinstance(v, ast.Dict):
+                    for k, x in zip(v.keys, v.values):
+                        out.append((None, None, unparse(k) if k is not None else "**", unparse(x)))
+                else:
+                    out.append(("?", None, None, unparse(v)))
+        elif isinstance(n, ast.Call) and isinstance(n.func, ast.Attribute) and unparse(n.func.value) == dname and \
+                n.func.attr == "update" and len(n.args) == 1:
+            v = n.args[0]
+            if isinstance(v, (ast.GeneratorExp, ast.ListComp)) and len(v.generators) == 1 and not v.generators[0].ifs and \
+                    isinstance(v.elt, ast.Tuple) and len(v.elt.elts) == 2:
+                g = v.generators[0]
+                out.append((unparse(g.iter), unparse(g.target), unparse(v.elt.elts[0]), unparse(v.elt.elts[1])))
+            elif isinstance(v, ast.DictComp) and len(v.generators) == 1 and not v.generators[0].ifs:
+                g = v.generators[0]
+                out.append((unparse(g.iter), unparse(g.target), unparse(v.key), unparse(v.value)))
+            else:
+                out.append(("?", None, None, unparse(v)))
+    return out
